@@ -17,7 +17,7 @@ import (
 func init() {
 	register(&Prop{ID: "C13", N: 40000, Quick: 1200,
 		Assume: []string{"the reference for a call is the same call on a value compiled freshly for that call (no external oracle)", "the history of a value is driven in one goroutine (concurrent histories belong to C06)"},
-		Rule:   "case = one pattern G(D,i) under the default configuration and under two small-cache configurations (MaxDFAStates 2 and 16); a long-lived Regex and a long-lived meta.Engine receive a history of 36 index-chosen calls (Match, FindIndex, FindSubmatchIndex, FindAllIndex, Count, ReplaceAll, FindAllSubmatchIndex, Engine.FindIndices/IsMatch/Count/FindSubmatch) over the case's haystacks, haystacks of neighbouring cases, cache-churning random walks and (for every 50th case) a 70,000-byte haystack that wraps the backtracker's 16-bit generation counter, with runtime.GC() in between; after EVERY call the result is compared with the same call on a fresh value, and every 6th call is repeated; one evaluation = one compared call; distinct_nontrivial = distinct (pattern, config, history position) triples where the fresh value reports a match",
+		Rule:   "case = one pattern G(D,i) under the default configuration and under two small-cache configurations (MaxDFAStates 2 and 16); a long-lived Regex and a long-lived meta.Engine receive a history of 36 index-chosen calls (Match, FindIndex, FindSubmatchIndex, FindAllIndex, Count, ReplaceAll, FindAllSubmatchIndex, Engine.FindIndices/IsMatch/Count/FindSubmatch) over the case's haystacks, haystacks of neighbouring cases, cache-churning random walks a 70,000-byte haystack for every 50th case, and for every 8th case a burst of 65,600 cheap calls in the middle of the history (wraps the 16-bit generation counter of the pooled backtracker state while marks of earlier, longer searches are still in the table), with runtime.GC() in between; after EVERY call the result is compared with the same call on a fresh value, and every 6th call is repeated; one evaluation = one compared call; distinct_nontrivial = distinct (pattern, config, history position) triples where the fresh value reports a match",
 		Triage: func(f *Failure) string { return "" },
 		Run:    runC13})
 }
@@ -121,6 +121,27 @@ func runC13(w *W, i uint64) {
 			if step%9 == 8 {
 				runtime.GC()
 				w.Count("event:gc-in-history", 1)
+			}
+			if step == 17 && i%8 == 0 {
+				// 65 600 cheap calls between two parts of the history: wraps every 16-bit generation / epoch
+				// counter of the pooled state (backtracker visited table) while marks of earlier, longer
+				// searches are still in the tables
+				short := pool[0]
+				for _, h := range pool {
+					if len(h) > 0 && (len(short) == 0 || len(h) < len(short)) {
+						short = h
+					}
+				}
+				obs.Call(func() string {
+					for k := 0; k < 65600; k++ {
+						V.Match(short)
+						if k%4 == 0 {
+							E.FindIndices(short)
+						}
+					}
+					return ""
+				})
+				w.Count("event:generation-wrap-burst(65600 calls)", 1)
 			}
 			got := obs.Call(func() string { return cl.f(V, E, h) })
 			fre, fe := compile()
